@@ -141,7 +141,7 @@ def check_arithmetic(res, rng, reps):
         cmap, n = compact(list(tA) + list(tB))
         MA, MB = dense_table(tA, cmap, n), dense_table(tB, cmap, n)
         s = rng.choice([rng.choice([1, -1, 2, 3, -7]), rng.choice([0.5, -0.25, 1e-3, 1e3, 2.0]), rand_coef(rng, 0.3),
-                        complex(rand_coef(rng, 0.3))])
+                        complex(rand_coef(rng, 0.3)), rng.choice([1, 1.0, 1 + 0j, -1, -1.0])])
         if s == 0:
             s = 1.5
         snapA, snapB = dict(A), dict(B)
@@ -186,6 +186,13 @@ def check_arithmetic(res, rng, reps):
                     res.fail(f"sweep:{name}:stored_zero", "result stores an exactly-zero coefficient", inp)
             if dict(A) != snapA or dict(B) != snapB:
                 res.fail(f"sweep:{name}:operand_mutated", "a non in-place operation changed an operand", inp)
+            # the result is a fresh operator: an in-place update of it must leave the operands as they were
+            R.add_term(PAULI_IDENTITY, 1.0)
+            R.constant = R.constant + 2.0
+            if dict(A) != snapA or dict(B) != snapB:
+                res.fail(f"sweep:{name}:result_aliases_operand",
+                         "an in-place update of the result of a non in-place operation changed an operand", inp)
+                A, B = Operator(snapA), Operator(snapB)
         if rng.random() < 0.02:
             res.sample({"A": show(A), "B": show(B), "universe": univ})
         # unsupported operand types must not silently produce something
